@@ -379,3 +379,19 @@ mut("c18_unflatten_drops_caches", DC, '''        obj.__dict__.update(state)
         return obj''', '''        return obj''', ["C18"])
 mut("c18_vmap_unsafe_reshape", ME, '''        return jnp.einsum("a,ab->ab", constant, self._expectation_x())''', '''        return (constant.reshape((-1, 1)) * self._expectation_x().reshape((constant.shape[0], -1))).reshape(self.mu.shape)''', [])
 mut("c18_omega_loop_dead_again", AC, "        omega_dagger = jnp.full_like(omega_star, jnp.inf)", "        omega_dagger = omega_star", ["C18"])
+# ---- memoised results keyed wrongly (second query on the same object)
+mut("c05_marginal_memo_ignores_dims", PD, '''        idx = jnp.ix_(jnp.arange(self.Sigma.shape[0]), dim_x, dim_x)
+        Sigma_new = self.Sigma[idx]
+        idx = jnp.ix_(jnp.arange(self.mu.shape[0]), dim_x)
+        mu_new = self.mu[idx]
+        marginal_density = GaussianPDF(Sigma=Sigma_new, mu=mu_new)
+        return marginal_density''', '''        memo = self.__dict__.get("_marginal_memo")
+        if memo is not None and memo[0] == len(dim_x) and memo[1] is self.Sigma:
+            return memo[2]
+        idx = jnp.ix_(jnp.arange(self.Sigma.shape[0]), dim_x, dim_x)
+        Sigma_new = self.Sigma[idx]
+        idx = jnp.ix_(jnp.arange(self.mu.shape[0]), dim_x)
+        mu_new = self.mu[idx]
+        marginal_density = GaussianPDF(Sigma=Sigma_new, mu=mu_new)
+        self.__dict__["_marginal_memo"] = (len(dim_x), self.Sigma, marginal_density)
+        return marginal_density''', ["C05"])
